@@ -98,7 +98,7 @@ def conc_scenarios():
         sc.append("set")
         sc.append("storeacc")
     sc.append("bigread")
-    sc += ["addrem", "keysstable", "streamtrim", "bpoptime", "counters"]
+    sc += ["addrem", "keysstable", "streamtrim", "bpoptime", "counters", "bigmulti"]
     return sc
 
 
